@@ -228,10 +228,11 @@ def run(repo: Repo, rep: Report, tier: str) -> None:
         lc = _loop_consts(fn.node)
         res_vars = set()
         for n in own_nodes(fn.node):
-            if isinstance(n, ast.Assign) and isinstance(n.targets[0], ast.Name):
+            tg_ = n.targets[0] if isinstance(n, ast.Assign) else n.target if isinstance(n, ast.AnnAssign) else None
+            if isinstance(tg_, ast.Name) and getattr(n, "value", None) is not None:
                 v = n.value.value if isinstance(n.value, ast.Await) else n.value
                 if isinstance(v, ast.Call) and isinstance(v.func, ast.Attribute) and v.func.attr == "authenticate_request":
-                    res_vars.add(n.targets[0].id)
+                    res_vars.add(tg_.id)
         # reads of result[K] / result.get(K)
         reads: Dict[str, List[ast.AST]] = {}
         for n in own_nodes(fn.node):
@@ -251,6 +252,9 @@ def run(repo: Repo, rep: Report, tier: str) -> None:
                 if isinstance(n, ast.Assign) and isinstance(n.targets[0], ast.Name):
                     if any(any(x is r for x in ast.walk(n.value)) for r in nodes):
                         tainted.add(n.targets[0].id)
+                elif isinstance(n, ast.AnnAssign) and isinstance(n.target, ast.Name) and n.value is not None:
+                    if any(any(x is r for x in ast.walk(n.value)) for r in nodes):
+                        tainted.add(n.target.id)
             forwarded = False
             for n in own_nodes(fn.node):
                 if isinstance(n, ast.Return) and n.value is not None and any(isinstance(x, ast.Name) and x.id in tainted for x in ast.walk(n.value)):
@@ -373,8 +377,14 @@ def run(repo: Repo, rep: Report, tier: str) -> None:
                         return None
                 return out
 
-            if len(ddefs) == 1 and isinstance(ddefs[0].value, ast.DictComp):
-                dc = ddefs[0].value
+            dval = ddefs[0].value if len(ddefs) == 1 else None
+            # `{k: v for ... if k != "headers"} | {"headers": prepared}`: the union only (re)fills the headers slot
+            merged_headers_slot = False
+            if isinstance(dval, ast.BinOp) and isinstance(dval.op, ast.BitOr) and isinstance(dval.right, ast.Dict) and len(dval.right.keys) == 1 \
+                    and dval.right.keys[0] is not None and const_str(dval.right.keys[0]) == "headers":
+                dval, merged_headers_slot = dval.left, True
+            if dval is not None and isinstance(dval, ast.DictComp):
+                dc = dval
                 g = dc.generators[0]
                 it_ok = norm(g.iter) == f"{kwname}.items()" and len(dc.generators) == 1
                 kv_ok = isinstance(g.target, ast.Tuple) and len(g.target.elts) == 2 and norm(dc.key) == norm(g.target.elts[0]) and norm(dc.value) == norm(g.target.elts[1])
@@ -383,7 +393,7 @@ def run(repo: Repo, rep: Report, tier: str) -> None:
                 popped_headers = excl == {"headers"}
                 okc = it_ok and kv_ok and flt_ok
                 why = f"`{norm(dc)}`"
-            elif len(ddefs) == 1 and norm(ddefs[0].value) in (f"dict({kwname})", f"{kwname}.copy()", f"{{**{kwname}}}"):
+            elif dval is not None and norm(dval) in (f"dict({kwname})", f"{kwname}.copy()", f"{{**{kwname}}}"):
                 okc, why = True, f"`{norm(ddefs[0].value)}`"
             if okc:
                 rep.ok("R17.3", sub3 + " kwargs copy", f"every caller kwarg except 'headers' is forwarded unchanged: {why}", req.loc(ddefs[0]))
